@@ -46,7 +46,7 @@ to the reference** (all commits reachable from the new target and not from the p
 merge and root commits alike) and every path each of them changes. -/
 theorem C10_entry_checks_all_commits (W : World) (v : Variant) (P : Policy) (A : Option AttState) (i : Nat)
     (e : LogEntry) (hne : (e.ref == policyRef || e.ref == attestationsRef) = false)
-    (hfile : P.hasFileRule = true) (h : W.verifyEntry v P A i e = .ok ()) :
+    (hfile : hasFileRuleV v P = true) (h : W.verifyEntry v P A i e = .ok ()) :
     ∃ tc ap, targetCommit e = some tc ∧
       ∀ c ∈ W.commitsBetween tc (W.fromId e.ref i), ∀ path ∈ W.changedPaths c, ∃ u res,
         W.verifyObject v P ("file:" ++ path) (sigOf (W.commitSigner c)) none ap { trusted := u } = .ok res := by
